@@ -261,7 +261,7 @@ def check_typed_fields(chk, rule, rr: ReaderRecord):
         annot = rr.annots.get(fld)
         n += 1
         bad = mismatch(got, annot) if annot is not None else None
-        if bad is not None and bad.startswith('Unknown '):
+        if bad is not None and (bad.startswith('Unknown ') or bad.startswith('Any ') or 'Any' in show(got)):
             raise AnalysisError(rule, rr.qual, f'cannot type `{ast.unparse(expr)[:70]}` for field {fld} ({bad})')
         chk.require(bad is None, rule, rr.repo.where(rr.m, expr), rr.qual, f'{fld}={ast.unparse(expr)[:70]}',
                     f'field {fld}: {show(annot)} receives {show(got)}',
@@ -270,7 +270,7 @@ def check_typed_fields(chk, rule, rr: ReaderRecord):
         for (callee, slot, inferred, ann, node) in list(rr.ti.checks):
             n += 1
             b2 = mismatch(inferred, ann)
-            if b2 is not None and b2.startswith('Unknown '):
+            if b2 is not None and (b2.startswith('Unknown ') or b2.startswith('Any ') or 'Any' in show(inferred)):
                 raise AnalysisError(rule, rr.qual, f'cannot type `{ast.unparse(node)[:70]}` for {callee}.{slot} ({b2})')
             chk.require(b2 is None, rule, rr.repo.where(rr.m, node), rr.qual, f'{callee}({slot}={ast.unparse(node)[:60]})',
                         f'{callee}.{slot}: {show(ann)} receives {show(inferred)}',
